@@ -74,6 +74,42 @@ CLAIMS["C03"] = {
     "note": TB + "The cursor (byte index/offset/pending char) is abstracted to consumed-so-far/rest; byte indices are recomputed from UTF-8 lengths and compared with the real token indices.",
 }
 
+CLAIMS["C01"] = {
+    "technique": "Lean 4 proof over a proof-carrying model of lexer+rowan+parser (invariant by construction) + correspondence",
+    "text": "Theorem parse_no_panic: for EVERY input, token limit and recursion limit, Parser::parse / parse_selection_set / parse_type of the model never "
+            "reach any panic site (unwrap on empty node stack, start_node_at asserts, counter underflow, GreenNodeBuilder::finish root assert); lexing terminates "
+            "with progress at every step; every grammar function restores the recursion counter and node stack (Frame). " + "Parser model = transliteration of lexer/mod.rs, rowan's GreenNodeBuilder, parser/mod.rs and every parser/grammar/*.rs function in a proof-carrying state monad; tied by correspondence stream P (S-expression of the tree with token texts, error positions, both high-water marks; three entry points; all limit settings) — " + "0 disagreements on ~130k cases "
+            "incl. every string ≤3/4 over the lexer class alphabet × 3 entry points, token sequences, generated+mutated documents. PARTIAL: termination of the parser "
+            "model (fuel, peek_while progress assertion) is not excluded by the framework, and stack depth is a runtime fact: explored with deep nesting around "
+            "the default limit on a 2 MiB thread, and on the compiler's five parse entry points.",
+    "note": TB + "Native stack usage, the compiler wrappers (parse_common etc.) and rowan's caching are explored/trusted, not modelled. Two defects repaired (a655e20).",
+}
+CLAIMS["C02"] = {
+    "technique": "Lean 4 proof (lossless invariant preserved by every parser primitive) + kernel-checked counterexample + correspondence",
+    "text": "Theorem lossless_document_partial: for every input and recursion limit, with no token limit, the tree text equals the input whenever ty.rs did not "
+            "throw a token away (ghost flag `dropped`); C02_counterexample (kernel-evaluated) shows the full statement is false of the code: `type A{a:[!}` loses "
+            "`!` — recorded as a KNOWN FINDING because repairing it would change 3 committed parser snapshots. " + "Parser model = transliteration of lexer/mod.rs, rowan's GreenNodeBuilder, parser/mod.rs and every parser/grammar/*.rs function in a proof-carrying state monad; tied by correspondence stream P (S-expression of the tree with token texts, error positions, both high-water marks; three entry points; all limit settings) — " + "oracle on impl: tree text = source, every "
+            "range on a char boundary, lexical errors and multibyte text inserted at every grammar position.",
+    "note": TB + "Char-boundary clause: true by typing in the model (List Char), checked on the implementation.",
+}
+CLAIMS["C04"] = {
+    "technique": "Lean 4 proof (lexer limit stream, prefix/freeze/balance invariants of the parser model) + exhaustive (n,r) correspondence",
+    "text": "Theorems for all inputs and limits: token_limit_exact / token_limit_iff (limited stream = first n items + one limit error iff longer), "
+            "limited_tree_is_prefix, no_error_after_token_limit (error list frozen once the limit error is recorded), recursion counter balanced and the limit branch "
+            "taken exactly when the incremented counter exceeds the limit. " + "Parser model = transliteration of lexer/mod.rs, rowan's GreenNodeBuilder, parser/mod.rs and every parser/grammar/*.rs function in a proof-carrying state monad; tied by correspondence stream P (S-expression of the tree with token texts, error positions, both high-water marks; three entry points; all limit settings) — " + "every token limit 0..|items|+1 and every recursion limit 0..depth+1 per document. "
+            "PARTIAL: 'recursion-limit error ⟺ nesting depth of the unlimited tree > r' and the compiler's reached figures are decided on the implementation "
+            "against a depth computed from the tree.",
+    "note": TB + "apollo_compiler::parser::Parser's recursion_reached/tokens_reached are compared with the parser's high-water marks on the implementation only.",
+}
+CLAIMS["C07"] = {
+    "technique": "Lean 4 proof (exhaustion lemma for the repaired entry points) + exhaustive prefix/construct/suffix correspondence",
+    "text": "Theorem standalone_whole_input: for every input and recursion limit (no token limit), if parse_type / parse_selection_set report no error then nothing "
+            "is left unconsumed (lexer exhausted, only the empty EOF token current). " + "Parser model = transliteration of lexer/mod.rs, rowan's GreenNodeBuilder, parser/mod.rs and every parser/grammar/*.rs function in a proof-carrying state monad; tied by correspondence stream P (S-expression of the tree with token texts, error positions, both high-water marks; three entry points; all limit settings) — " + "oracle on impl: an independent recogniser of `one type` / `one selection set` "
+            "over all strings ≤6/7 of a type alphabet and all prefix×construct×suffix token combinations, also through ast::Type::parse. PARTIAL: that the consumed tokens "
+            "form exactly one construct is grammar acceptance (C05), decided on the implementation. Defect repaired (013ce3e).",
+    "note": TB + "FieldSet::parse needs a schema and is exercised in C01/C19 harnesses.",
+}
+
 ALL = [f"C{i:02d}" for i in range(1, 34)]
 NOT_APPLICABLE = {p: "check not built yet in this session (planned, see DESIGN.md §9); not a claim that the technique cannot apply"
                   for p in ALL if p not in CLAIMS}
